@@ -22,7 +22,7 @@ class HeaderwordInfo:
     """
     def __init__(self, n_traces, seismicfile=None,
                  variant_header_list=None, variant_header_dict=None,
-                 header_detection=None, buffer=None):
+                 header_detection=None, buffer=None, first_trace=0, last_trace=-1):
         """
         Parameters
         ----------
@@ -39,6 +39,9 @@ class HeaderwordInfo:
             raise RuntimeError("Must specify at least one of seismicfile and variant_header_list for constructor")
 
         self.header_detection = header_detection
+        # Ordinals of the first and last trace which will be stored (differ from 0, -1 for a windowed conversion)
+        self.first_trace = first_trace
+        self.last_trace = last_trace
         self.table = {self._get_hw_code(hw): (0, 0) for hw in segyio.segy.Field(bytearray(240), kind='trace')}
 
         if seismicfile is not None:
@@ -48,9 +51,9 @@ class HeaderwordInfo:
                 self.unique_variant_nonzero_header_words = self._get_unique_headerwords()
                 self.duplicate_header_words = self._find_duplicated_headerwords()
 
-                for hw in self.seismicfile.header[0]:
+                for hw in self.seismicfile.header[self.first_trace]:
                     if hw in self._get_invariant_nonzero_headerwords():
-                        self.table[self._get_hw_code(hw)] = (self.seismicfile.header[0][hw], 0)
+                        self.table[self._get_hw_code(hw)] = (self.seismicfile.header[self.first_trace][hw], 0)
 
                     if hw in self.unique_variant_nonzero_header_words:
                         self.table[self._get_hw_code(hw)] = (0, self._get_hw_code(hw))
@@ -189,10 +192,11 @@ class HeaderwordInfo:
         return segyio.tracefield.keys[str(segyio.tracefield.TraceField(hw))]
 
     def _get_first_last_headers(self):
-        return self.seismicfile.header[0].items(), self.seismicfile.header[-1].items()
+        return (self.seismicfile.header[self.first_trace].items(),
+                self.seismicfile.header[self.last_trace].items())
 
     def _get_nonzero_headerwords(self):
-        return [k for k, v in self.seismicfile.header[0].items() if v != 0]
+        return [k for k, v in self.seismicfile.header[self.first_trace].items() if v != 0]
 
     def _get_invariant_headerwords(self):
         first_header, last_header = self._get_first_last_headers()
@@ -208,7 +212,8 @@ class HeaderwordInfo:
 
     def _find_duplicated_headerwords(self):
         variant_nonzero_header_words = self._get_variant_headerwords()
-        first_header, last_header = self.seismicfile.header[0], self.seismicfile.header[-1]
+        first_header = self.seismicfile.header[self.first_trace]
+        last_header = self.seismicfile.header[self.last_trace]
         hw_mappings = {}
 
         for i, hw in enumerate(variant_nonzero_header_words):
